@@ -23,6 +23,32 @@ KERNEL_NOTE = ("The kernel model (lean/AsphaltModel/Context.lean) treats the cod
                "teardown traces as the model after every step. ")
 
 CLAIMS = {
+    "C10": (
+        "Refinement of every stream's queue state to its ghost history, for every reachable world of the signal model "
+        "(lean/AsphaltModel/Signal.lean; all operations atomic, so all reachable worlds = all interleavings): C10_settled, "
+        "C10_queue (taken ++ buffered = accepted), C10_bounded, C10_accepted_or_lost, C10_deliver (yielded = taken filtered), "
+        "C10_once_in_order, C10_offered_exact (offered = dispatched on its signals between entering and leaving), C10_stamp, "
+        "C10_overflow / C10_accept / C10_independent (a full, slow, finished or gone subscriber affects nobody else), "
+        "C10_total (dispatch never raises because of subscribers), C10_warnings (one warning per lost event), C10_wait_once, "
+        "C10_left_unsubscribed. Correspondence: a director with one consumer task per stream (pulling on command, leaving, "
+        "cancelled while waiting), dispatch bursts inside one atomic section, wait_event callers, on both back-ends; outputs, "
+        "warning counts and per-stream deliveries must equal the model's.",
+        "anyio memory object stream semantics (direct hand-over to a waiting receiver, WouldBlock) are modelled, not "
+        "verified. Which subscriber overflowed is not observable (only the warning count is compared). event.time is only "
+        "checked to be a float; 'never blocks' is immediate (dispatch is a plain function).",
+        "8/C10",
+    ),
+    "C11": (
+        "Theorems C11_same, C11_carries, C11_distinct, C11_distinct_access, C11_isolated, C11_subscribers, C11_type, "
+        "C11_unbound about the bound-signal table keyed by (instance, attribute) in every reachable world of the signal model. "
+        "Correspondence: generated owner classes (2-4 signals, inheritance, overriding), instances, every order of first "
+        "access; channel identities, deliveries, TypeError / UnboundSignal must equal the model's.",
+        "Partial: 'binding never keeps the owner alive' is a garbage-collector fact decided on the implementation only "
+        "(weakref dead after del + gc.collect() with bound signals and streams around). Known finding D8 (instances comparing "
+        "equal share a bound signal) is reported as KNOWN-FINDING from a corpus case; written for the behaviour after the fix "
+        "commit for D4.",
+        "8/C11",
+    ),
     "C01": (
         "Theorems C01_exactly_once, C01_lifo_and_argument, C01_all_finish, C01_one_at_a_time, C01_all_collected, C01_frame, "
         "C01_route_add/_direct, C01_outcome_group/_normal/_own, C01_closed_afterwards hold for all callback stacks (any number, "
